@@ -47,6 +47,9 @@ type ArgFlow struct {
 	Self    bool     // $$ flows in
 	Nil     bool     // literal nil
 	Sel     string   // trailing selector on the $k, e.g. ".Pos" or ".LBracePos.Pos"
+	// FromCtor: the argument is a local variable of the action that holds the result of this constructor call
+	// (`list := p.newListLiteralStart(…); $$ = p.newListLiteralAppendExpr(list, $3)`)
+	FromCtor string
 }
 
 type CtorCall struct {
@@ -635,7 +638,11 @@ func (g *Gram) flowOfCase(ai *ActionInfo, cc *ast.CaseClause) {
 	p := ai.Prod
 	// goyacc initialises $$ with $1 (yyVAL = yyS[yyp+1]); until the action assigns yyVAL, reading it reads $1.
 	valAssigned := false
+	locals := map[string]string{} // local variable of the action -> constructor whose result it holds
 	fix := func(af ArgFlow) ArgFlow {
+		if c, ok := locals[af.Text]; ok {
+			af.FromCtor = c
+		}
 		if af.Self && !valAssigned && len(p.RHS) > 0 {
 			af.Self = false
 			af.Symbols = append(af.Symbols, p.RHS[0])
@@ -657,6 +664,9 @@ func (g *Gram) flowOfCase(ai *ActionInfo, cc *ast.CaseClause) {
 						ai.Calls = append(ai.Calls, call)
 						if call.ToResult {
 							valAssigned = true
+						}
+						if id, isId := x.Lhs[0].(*ast.Ident); isId {
+							locals[id.Name] = name
 						}
 						if k, sel, ok := dollarOf(x.Lhs[0]); ok {
 							ai.ItemSets = append(ai.ItemSets, fmt.Sprintf("%d%s:%s", k, sel, name))
